@@ -208,7 +208,7 @@ def judge_curve(case):
     mode = tuple(case["mode"]) if case["mode"] != "vac" else "vac"
     kw = U.permeate_kwargs(mode, t)
     xs = case["xs"]
-    comps = [U.composition(x, case["basis"], mix) for x in xs]
+    comps = [U.composition(x, (case["basis"] if case["basis"] != "mixed" else ("weight" if i_ % 2 == 0 else "molar")), mix) for i_, x in enumerate(xs)]
     if case["source"] == "permeances":
         perms = []
         for i, x in enumerate(xs):
@@ -448,7 +448,7 @@ def main(tier, seed):
     install_clock()
     models = []
     for kind in traces.KINDS:
-        for mode in ("vac", ("T", -20.0), ("p", 0.5)):
+        for mode in ("vac", ("T", -20.0), ("p", 0.5), ("p", 0.0)):
             for basis in ("weight", "molar"):
                 for mixn, model, dt_ in ((("H2O_EtOH", "NRTL", core.lat([0.5, 1.0], seed)[0]), ("MeOH_DMC", "UNIQUAC", 1.0 / 300), ("H2O_iPOH", "NRTL", 0.1 / 3)) if not q
                                          else (("H2O_EtOH", "NRTL", core.lat([0.5, 1.0], seed)[0]), ("H2O_EtOH", "NRTL", 1.0 / 300))):
@@ -463,14 +463,14 @@ def main(tier, seed):
     core.run_space(rep, core.ListSpace("process_roundtrip", rt), judge_roundtrip)
     cur = core.Space("curve_roundtrip", {
         "source": ["permeances", "fluxes", "ideal_generator"], "mixture": ["H2O_EtOH", "MeOH_Toluene"] if q else list(U.BUILTIN_MIXTURES),
-        "basis": ["weight", "molar"], "unit": [U.Units.kg_m2_h_kPa, "SI", "GPU"], "mode": ["vac", ("T", -20.0), ("p", 0.5)],
-        "scale": [1e-9, 1e-3, 1e3] if q else [1e-9, 1e-6, 1e-3, 1.0, 1e3], "T": core.lat([313.15, 353.15], seed)[:1], "xs": [[0.05, 0.4, 0.93]],
+        "basis": ["weight", "molar", "mixed"], "unit": [U.Units.kg_m2_h_kPa, "SI", "GPU"], "mode": ["vac", ("T", -20.0), ("p", 0.5)],
+        "scale": [1e-9, 1e-3, 1e3] if q else [1e-9, 1e-6, 1e-3, 1.0, 1e3], "T": core.lat([313.15, 353.15], seed)[:1], "xs": [[0.05, 0.4, 0.93], [0.05, 0.4, 0.4, 0.93, 0.93]],  # incl. replicate points
         "comment": [None, "a, \"quoted\" comment"]},
         lambda c: not (c["source"] != "permeances" and c["unit"] != U.Units.kg_m2_h_kPa) and not (c["source"] == "permeances" and c["mode"] != "vac"))
     core.run_space(rep, cur, judge_curve)
     fn = [{"alpha": al, "a": a, "b": b, "numpy": npy} for al in (1e-9, 2.5, 1e3) for a in ([0.0], [1.3, -0.4]) for b in ([2300.0], [-800.0, 90.0, 40.0]) for npy in (False, True)]
     core.run_space(rep, core.ListSpace("function_roundtrip", fn), judge_function)
-    cd = core.Space("conditions_roundtrip", {"mode": ["vac", ("T", -20.0), ("p", 0.5)], "basis": ["weight", "molar"], "area": [1e-9, 0.05, 1e3], "T": [333.15],
+    cd = core.Space("conditions_roundtrip", {"mode": ["vac", ("T", -20.0), ("p", 0.5), ("p", 0.0)], "basis": ["weight", "molar"], "area": [1e-9, 0.05, 1e3], "T": [333.15],
                                              "amount": [1e-3, 50.0], "x0": core.lat([0.1, 0.9], seed), "prog": ["none", "poly"]})
     core.run_space(rep, cd, judge_conditions)
     depth = 3 if q else 4
